@@ -2,7 +2,7 @@ from copy import copy
 from warnings import warn
 import matplotlib.pyplot as plt
 
-from numpy import array, savez, load, zeros
+from numpy import array, savez, load, zeros, atleast_2d
 from numpy import sqrt, exp, dot, cov
 from scipy.linalg import eigh
 
@@ -101,11 +101,13 @@ class PcaChain(MetropolisChain):
                 for i in range(self.n_parameters)
             ]
         )
+        # cov() returns a 0-d array for a single parameter, which eigh() rejects
+        data_covar = atleast_2d(cov(data))
         if hasattr(self, "covar"):
             nu = min(2 * self.dir_update_interval / self.last_update, 0.5)
-            self.covar = self.covar * (1 - nu) + nu * cov(data)
+            self.covar = self.covar * (1 - nu) + nu * data_covar
         else:
-            self.covar = cov(data)
+            self.covar = data_covar
 
         w, V = eigh(self.covar)
 
